@@ -1,6 +1,8 @@
 """C03 — schema invariant: a typed symbolic value always satisfies its declared schema."""
 import contextlib
 
+import json
+
 import pyglove as pg
 from hypothesis import strategies as st
 
@@ -265,7 +267,9 @@ def execute(case):
     def value_for(ld):   # pylint: disable=function-redefined
       """Sometimes the value is a container that already sits somewhere else (the library stores a copy of it)."""
       v, verdict = _unheld_value_for(ld)
-      if type(v) in (list, dict) and ch.pick(3) == 0:
+      if type(v) in (list, dict) and ch.pick(3) == 0 and '__tuple__' not in json.dumps(pg.to_json(v), default=str):
+        # (values with tuples are left out: what a tuple holds is not symbolic, a copy shares it with the original by
+        # design, and the spec fills defaults into a plain dict in place)
         try:
           holder = pg.Dict(x=v)
         except REJECT:
